@@ -320,6 +320,9 @@ def run(ctx, rep) -> None:
     rep.attempt("buffer_views", buffer_views, ctx, rep, "C06.3", [DDP])
     rep.attempt("typing_sites", typing_sites, ctx, rep, "C06.3", {"distributed_shampoo.utils.shampoo_ddp_distributor"}, {"distributed_shampoo.utils.shampoo_ddp_distributor": 8})
     rep.attempt("_dist_remask", _dist_remask, ctx, rep, "C06.3", DDP)
+    from .c04 import _change_guards
+
+    rep.attempt("_change_guards", _change_guards, ctx, rep, "C06.3")
     from .c04 import stateful_cursors_advance
 
     rep.attempt("stateful_cursors_advance", stateful_cursors_advance, ctx, rep, "C06.3")
